@@ -46,6 +46,8 @@ public:
    int Compare(const T & a, const T & b, void *) const {const int ka = key4(val(a)), kb = key4(val(b)); return (ka < kb) ? -1 : ((kb < ka) ? 1 : 0);}
 };
 static bool key_less(int a, int b) {return key4(a) < key4(b);}
+static inline bool owningKind(const Tracked *) {return true;}
+static inline bool owningKind(const int *) {return false;}
 
 static std::vector<std::string> split(const std::string & s, char c)
 {
@@ -180,6 +182,25 @@ template<class T> static bool apply_op(Queue<T> & q, Ideal & ideal, const std::s
       o << "l"; bool first = true;
       for (uint32 w=0; w<2; w++) {uint32 len = 0; const T * p = q.GetArrayPointer(w, len); if (p) for (uint32 i=0; i<len; i++) {if (!first) o << ","; first = false; o << val(p[i]);}}
    }
+   else if (c == "adp")
+   {
+      // AdoptRawDataArray(n, array, |xs|): xs followed by the spare slots (default items for the owning kind, as the API demands)
+      std::vector<int> xs = ints(a.size() > 1 ? a[1] : ""), sp = ints(a.size() > 2 ? a[2] : "");
+      const uint32 n = (uint32)(xs.size()+sp.size());
+      T * arr = new T[n];
+      for (size_t i=0; i<xs.size(); i++) arr[i] = T(xs[i]);
+      for (size_t i=0; i<sp.size(); i++) arr[xs.size()+i] = T(owningKind(arr) ? 0 : sp[i]);
+      q.AdoptRawDataArray(n, arr, (uint32)xs.size());
+      ideal = xs; o << "-";
+   }
+   else if (c == "rel")
+   {
+      uint32 len = 0;
+      T * p = q.ReleaseRawDataArray(&len);
+      o << "-r"; for (uint32 i=0; (p)&&(i<len); i++) {if (i) o << ","; o << val(p[i]);}
+      delete [] p;
+      ideal.clear();
+   }
    else if (c == "isp")
    {
       o << "i" << q.InsertItemAtSortedPosition(T(I(1)));
@@ -240,7 +261,7 @@ static std::string expected_result(const Ideal & v, const Ideal & w, const std::
    // the uint32 sums of these three must stay below MUSCLE_NO_LIMIT, else B_RESOURCE_LIMIT and nothing changes
    if (c=="es") return (((uint64)U(1))+((uint64)U(3)) >= 0xFFFFFFFFull) ? "err" : "ok";
    if ((c=="stf")||(c=="eca")) return (((uint64)sz)+((uint64)U(1)) >= 0xFFFFFFFFull) ? "err" : "ok";
-   if ((c=="cl")||(c=="sw")||(c=="rv")||(c=="nm")||(c=="so")||(c=="rpa")||(c=="sc")||(c=="pl")||(c=="as")) return "-";
+   if ((c=="cl")||(c=="sw")||(c=="rv")||(c=="nm")||(c=="so")||(c=="rpa")||(c=="sc")||(c=="pl")||(c=="as")||(c=="adp")) return "-";
    if (c=="rh") return sz ? num("v", v[0]) : "none";
    if (c=="rt") return sz ? num("v", v[sz-1]) : "none";
    if ((c=="ra")||(c=="g")) return (U(1) < sz) ? num("v", v[U(1)]) : "none";
